@@ -1,5 +1,6 @@
 """C14 - onions deliver exactly each hop's instructions; tampering is rejected; failures name the right hop (structural part)."""
 from engine import *
+import provenance
 import tlv, tlvloop
 
 OU = 'lightning::ln::onion_utils::'
@@ -447,4 +448,5 @@ RULES = [
 	('14.c', 'packet size is a type-level constant', r14c),
 	('14.g', 'recipient-type failure codes excuse only the final non-blinded node; final payload TLVs are sorted after merging', r14g),
 	('14.e', 'failures: blame only behind the hop HMAC; build then encrypt; key derivation per purpose', r14e),
+	('14.p', 'same-name field transfer: structs carrying this property\'s quantities are filled from the same-named field or a reviewed alias (rules/provenance.py)', lambda F: provenance.for_property(F, 'C14', '14.p')),
 ]
